@@ -2,7 +2,7 @@
 from common_props import COMMON_TRUSTED
 
 CFG = {
-    "engines": [["frag", 250, 4000], ["msgwire", 25, 300], ["poolget", 64, 1600], ["poolwire", 64, 960]],
+    "engines": [["frag", 250, 4000], ["msgwire", 25, 300], ["poolget", 64, 1600], ["poolwire", 64, 960], ["fragio", 60, 1500], ["relayappend", 24, 300]],
     "rule": "frag/fragw: writer scripts in the API grammar (Begin (Write|Flush)* Close)^3 with argument lengths around fragment "
             "boundaries (0..3, cap-3..cap+3, k*cap-3..k*cap+3, many-frame), capacities 5..40/64/300/4096 (initial and continuation "
             "independently), write splits (whole, byte-wise, random, boundary-1..+1), flushes incl. double and data-less ones, all "
@@ -17,13 +17,30 @@ CFG = {
             "these pools on the WRITING side writes a call req (client) or call res (server) whose arguments end -3..+3 bytes around the "
             "end of the first or a continuation frame (1..6 frames; whole, in pieces, with flushes) to a raw peer: every Write on the "
             "connection is one frame of 16..65535 bytes whose size field equals the bytes written, every frame parses, every checksum "
-            "verifies, the reassembled arguments are the ones written; sub callwire: the frames vs the reqResWriter model.",
+            "verifies, the reassembled arguments are the ones written; sub callwire: the frames vs the reqResWriter model. "
+            "fragio: the io.Writer / io.Reader contract of the argument streams: the real fragmentingWriter under scripts whose Writes are made "
+            "directly (returned n and error recorded per call) or by callers that rely on io.Writer (io.Copy from a WriterTo = one Write of "
+            "everything, io.CopyBuffer, bufio.Writer, io.WriteString, the loop n, err := w.Write(p); p = p[n:]), every underlying Write logged; "
+            "fixed family: ONE write of k fragment capacities -1/0/+1, k = 1..5, capacities 5/8/13, each kind of caller; random scripts; single "
+            "Writes across 2, 3, 4, 6 frames at the production capacity; oracle: n == len(p) whenever err == nil, no caller fails, the fragments "
+            "denote what the callers meant to send; sub fragrio: the fragments read through io.ReadFull (exact, short, long), ioutil.ReadAll, "
+            "bufio.Reader, io.Copy, io.ReadAtLeast, io.CopyN and plain Reads, every underlying Read logged with the n it returned: each reader "
+            "obtains the next bytes of the argument; sub fragiowire: real channels end to end (64 KiB frames): client - no relay / one relay hop / "
+            "one hop whose relay host appends to arg2 / two hops - handler, arg3 of 0..330000 bytes written by one Write (n checked), io.Copy, "
+            "bufio.Writer, the re-offering loop, pieces with explicit flushes incl. trailing data-less flushes, the handler and the caller "
+            "reading with ReadAll / io.Copy / bufio / 100000-byte Reads: the peer reads back exactly what was written, in both directions. "
+            "relayappend (shared with C02/C08): real client - appending relay - real handler, arg3 whole / in pieces with flushes / with "
+            "trailing data-less flushes: the destination reads back arg1/arg3 unchanged and arg2 with the appended pairs.",
     "trusted_base": COMMON_TRUSTED + [
         "modelled by hand (tied by correspondence): fragmentingWriter (BeginArgument/Write/writeAsFits/Flush/Close, fragment finish), "
         "fragmentingReader (BeginArgument/Read/Close cases 1-5/recvAndParseNextFragment), parseInboundFragment, ArgReadHelper.read + "
         "EnsureEmpty, checksum objects; regenerated from source: state enums, chunkHeaderSize, hasMoreFragmentsFlag, frame size "
         "constants, ChecksumSize, hasMoreFragments",
         "Spec/FragSpec.v: meaning of a fragment sequence, written from the protocol document",
+        "go2v/iotargets.go: ONE ITERATION of the loops of fragmentingWriter.Write and fragmentingReader.Read translated as statement "
+        "targets (Gen/GenFragIO.v) with the hints printed there: writeAsFits / Flush / recvAndParseNextFragment results and the lengths "
+        "of curChunk / remainingChunks are parameters, copy(b, chunk) = min of the two lengths, nil = 0, io.EOF = 12; the counted loops of "
+        "Model/FragIO.v are hand-written around that iteration (Proofs/FragIOGenP.v) and tied by correspondence (fragio / fragrio)",
         "go2v/framesites.go (syntactic, type-resolved over every non-test file of ./...): the table of NewFrame call sites with the constant "
         "value of the argument, the slice bounds in NewFrame, Frame literals, assignments to Frame.Payload/buffer/headerBuffer, write buffers "
         "over a Payload, FramePool implementations with the classes of what Get returns / Release stores, receive-only classification of "
